@@ -1,0 +1,66 @@
+/* Verification hooks.  Only ever included when CARES_VERIF_HOOKS is defined;
+ * with the guard off nothing in the library refers to this file.
+ *
+ * The hooks let an external harness own every source of nondeterminism of the
+ * library (time, randomness, hash seeds, threads) so that one execution is a
+ * pure function of the harness's choices.  Every member may be NULL, in which
+ * case the library behaves exactly as without the guard.
+ *
+ * SPDX-License-Identifier: MIT
+ */
+#ifndef ARES_VERIF_HOOKS_H
+#define ARES_VERIF_HOOKS_H
+
+#ifdef CARES_VERIF_HOOKS
+
+#  include <stddef.h>
+
+#  ifdef __cplusplus
+extern "C" {
+#  endif
+
+/* What the next ares_rand_bytes() call is used for */
+enum ares_verif_rand_purpose {
+  ARES_VERIF_RAND_UNTAGGED = 0,
+  ARES_VERIF_RAND_QID,        /* query id                     (nonce)  */
+  ARES_VERIF_RAND_DNS0X20,    /* 0x20 case bits               (nonce)  */
+  ARES_VERIF_RAND_COOKIE,     /* client cookie                (nonce)  */
+  ARES_VERIF_RAND_ROTATE,     /* pick among equally good servers (policy) */
+  ARES_VERIF_RAND_PROBE,      /* failed-server probe coin     (policy) */
+  ARES_VERIF_RAND_JITTER,     /* retry timeout jitter         (policy) */
+  ARES_VERIF_RAND_SLIST       /* skip list level coin flips   (policy) */
+};
+
+struct ares_verif_hooks_s {
+  /* virtual clock: fill sec/usec */
+  void (*tvnow)(long long *sec, unsigned int *usec);
+  /* random bytes for the given purpose */
+  void (*rand_bytes)(int purpose, unsigned char *buf, size_t len);
+  /* hash table seed; return 1 if *seed was set */
+  int (*htable_seed)(unsigned int *seed);
+
+  /* Thread primitives.  Each returns 1 when it handled the operation itself
+   * (the real pthread operation is then skipped), 0 to fall through. */
+  int (*mutex_lock)(void *mut);
+  int (*mutex_unlock)(void *mut);
+  int (*cond_signal)(void *cond);
+  int (*cond_broadcast)(void *cond);
+  /* timeout_ms == (size_t)-1 means forever; *timedout set to 1 on timeout */
+  int (*cond_wait)(void *cond, void *mut, size_t timeout_ms, int *timedout);
+  /* create: *handle is stored by the library and given back to join */
+  int (*thread_create)(void *(*func)(void *), void *arg, void **handle);
+  int (*thread_join)(void *handle, void **rv);
+};
+
+extern struct ares_verif_hooks_s ares_verif_hooks;
+extern int                       ares_verif_rand_purpose;
+
+#  ifdef __cplusplus
+}
+#  endif
+
+#  define ARES_VERIF_RAND_PURPOSE(x) (ares_verif_rand_purpose = (x))
+
+#endif /* CARES_VERIF_HOOKS */
+
+#endif /* ARES_VERIF_HOOKS_H */
